@@ -135,7 +135,15 @@ def check_state(res, p, rng, ctx):
 
     def load_and_compare(data, kind, exact):
         try:
-            q = workload.load(data)
+            if kind == "reader-classes":
+                # the reader classes of rv.readers used directly, as the loading function itself uses them
+                from io import BytesIO as _B
+                from rv.errors import override_raise_controller_value_errors as _ov
+                from rv.readers.initial import InitialReader
+                with _ov(False):
+                    q = InitialReader(_B(data)).object
+            else:
+                q = workload.load(data)
         except Exception as e:
             res.violation(f"C08:unloadable:{kind}:{workload.exc_key(e)}", f"{kind} file does not load: {e!r}", dict(case, variant=kind))
             return
@@ -163,6 +171,9 @@ def check_state(res, p, rng, ctx):
 
     res.count("native_roundtrips")
     load_and_compare(raw, "native", True)
+    if nontrivial and rng.random() < 0.2:
+        res.count("loads_through_reader_classes")
+        load_and_compare(raw, "reader-classes", True)
     if ctx.get("origin") == "random":
         # the same bytes as they sit in a larger stream: zero padding behind them (block-padded storage), and a foreign header
         # in front of them with the stream handed over positioned at the project
@@ -368,6 +379,38 @@ def run_wide(res, spec_, rng):
         check_state(res, p, rng, {"origin": "wide", "width": width, "direction": direction})
 
 
+def run_hubs(res, spec_, rng):
+    """Hubs of 17..48 links whose hub is a module of ANY type (a MultiCtl has a 16-entry mapping table, a MetaModule 96
+    mappings, ...: the link tables are no business of those), with slots freed in the middle and one destination re-plugged
+    again and again."""
+    import rv.api as api
+    from rv.modules import MODULE_CLASSES
+    classes = [c for k, c in sorted(MODULE_CLASSES.items()) if k != "Output"]
+    for s in range(6 if spec_["tier"] == "quick" else 60):
+        p = api.Project()
+        hub_cls = (api.m.MultiCtl, api.m.MetaModule, api.m.Sampler, api.m.MultiSynth, rng.choice(classes), api.m.MultiCtl)[s % 6]
+        hub = p.new_module(hub_cls)
+        width = rng.randint(17, 48)
+        others = [p.new_module(rng.choice([api.m.Amplifier, api.m.Filter, api.m.Generator])) for _ in range(width)]
+        direction = rng.choice(("out", "out", "in"))
+        for o in others:
+            p.connect(hub, o) if direction == "out" else p.connect(o, hub)
+        for o in rng.sample(others[:-1], rng.randint(1, 8)):
+            p.connect(hub, ~o) if direction == "out" else p.connect(o, ~hub)
+        pet = others[-1]
+        for _ in range(rng.randint(0, 18)):
+            if direction == "out":
+                p.connect(hub, ~pet)
+                p.connect(hub, pet)
+            else:
+                p.connect(pet, ~hub)
+                p.connect(pet, hub)
+        res.hist("graph_shapes", f"hub-{direction}")
+        res.seen("module_types_in_graphs", hub_cls.__name__)
+        res.count("hub_states")
+        check_state(res, p, rng, {"origin": "hub", "hub": hub_cls.__name__, "width": width, "direction": direction})
+
+
 def run_embedded(res, spec_, rng):
     """The same guarantees for the project embedded in a MetaModule, including after the LOADED embedded project is
     edited by unplugging only (no other kind of edit) and the outer project is saved again."""
@@ -484,6 +527,8 @@ def run_shard(spec_, res):
         run_deep(res, spec_, random.Random(spec_["seed"] + 5))
     if spec_.get("part") == "random" and spec_.get("n_wide"):
         run_wide(res, spec_, random.Random(spec_["seed"] + 77))
+    if spec_.get("part") == "random":
+        run_hubs(res, spec_, random.Random(spec_["seed"] + 78))
     rng = random.Random(spec_["seed"])
     monitors.install()
     if spec_["part"] == "bfs":
